@@ -5,7 +5,7 @@ from common import quiet
 
 PROP = 'C04'
 LEAN_MODULES = ['XyzProofs.Props.C04', 'XyzProofs.Refine.Batch', 'XyzProofs.Refine.Sow', 'XyzProofs.Props.C08Grow', 'XyzProofs.Refine.Progress',
-                'XyzProofs.Refine.Reaper', 'XyzProofs.Props.C09Reaper', 'XyzProofs.Refine.Lifecycle', 'XyzProofs.Props.C04Lifecycle']
+                'XyzProofs.Refine.Reaper', 'XyzProofs.Props.C09Reaper', 'XyzProofs.Refine.Lifecycle', 'XyzProofs.Props.C04Lifecycle', 'XyzProofs.Refine.LifecycleCrop']
 THEOREMS = ['Crop.c04_batches_cover', 'Crop.opSow_fresh', 'Crop.c04_grow_correct', 'Crop.c04_stream_full', 'Crop.c04_reap_eq_direct', 'Crop.c04_grow_history',
             'Crop.c04_history_reap_eq_direct', 'Crop.c04_reload_irrelevant',
             'Refine.chooseBatch_refines', 'Refine.sower_refines',
@@ -18,7 +18,8 @@ THEOREMS = ['Crop.c04_batches_cover', 'Crop.opSow_fresh', 'Crop.c04_grow_correct
             'Lc.prepare_refines', 'Lc.saveInfo_refines', 'Lc.ensureDirs_refines', 'Lc.saveFn_refines', 'Lc.loadInfo_refines', 'Lc.deleteAll_refines',
             'Lc.sowCombos_refines', 'Lc.sowCases_refines', 'Lc.sowSamples_refines', 'Lc.reapCombos_refines', 'Lc.c04_lc_sow_combos_ok',
             'Lc.c04_lc_sow_cases_ok', 'Lc.sowWrites_order', 'Lc.c04_lc_reaper_replays_combos', 'Lc.c04_lc_missing_key_raises',
-            'Lc.c04_lc_sow_combos_untouched', 'Lc.c04_lc_no_batch_without_info', 'Lc.c04_lc_no_batch_without_info_cases']
+            'Lc.c04_lc_sow_combos_untouched', 'Lc.c04_lc_no_batch_without_info', 'Lc.c04_lc_no_batch_without_info_cases',
+            'Lc.opSow_refines_lc']
 ANCHORS = ['nbFromBs', 'capNb', 'bsOfNb', 'remOfNb', 'sowerGetsExtra', 'sowerFlush', 'isReady', 'cleanUpDefault',
            'chooseBatchSettings', 'sowerInit', 'sowerCall', 'sowerExit',
            'sowCombosHead', 'sowCasesHead', 'sowCombosRunnerShuffle', 'sowCasesRunnerShuffle', 'growSk', 'cropGrowIds', 'growMissingIds',
